@@ -15,7 +15,53 @@ inline.apply(F, roles.resolve(F).keys())
 ctx = Ctx("DEV", "quick", F, th)
 p = os.path.join(os.path.dirname(os.path.dirname(os.path.abspath(__file__))), "tables", "pins.json")
 table = json.load(open(p))
+# properties whose anchor files handle values of a type (for comparison pins) / reach a function within three resolved calls (for the rest)
+from rules import hazards
+from engine.callgraph import CallGraph
+from engine import registry  # noqa: fills PROPS
+from engine.runner import PROPS
+_G = CallGraph(F)
+_uses_type = {}
+_reaches = {}
+for _p in sorted(PROPS):
+    _files = set(hazards.anchor_files(_p))
+    _fr = [g for g in F.fns if g.file in _files and not g.in_testonly()]
+    _uses_type[_p] = " ".join(l.s for g in _fr for l in g.locals)
+    seen = set(_fr)
+    front = list(_fr)
+    for _d in range(3):
+        nxt = []
+        for a in front:
+            for b in _G.edges.get(a, ()):
+                if b not in seen and _G.edge_why.get((a, b)) == "direct":
+                    seen.add(b)
+                    nxt.append(b)
+        front = nxt
+    _reaches[_p] = {g.qname for g in seen}
+
+
+def auto_props(q):
+    base = q.partition("@")[0]
+    out = set()
+    if base.startswith("<") and " as " in base and base.endswith(("Ord>::cmp", "PartialOrd>::partial_cmp", "PartialEq>::eq", "Hash>::hash")):
+        ty = base[1:].split(" as ", 1)[0].lstrip("&")
+        for p, s in _uses_type.items():
+            if ty in s:
+                out.add(p)
+    else:
+        for p, r in _reaches.items():
+            if base in r:
+                out.add(p)
+    return out
+
+
 for q, e in sorted(table.items()):
+    if "--auto-props" in sys.argv and (e.get("decided_only") or e.get("census") is not None or e.get("auto_props")):
+        add = sorted(auto_props(q) - set(e["props"]))
+        if add:
+            e["props"] = e["props"] + add
+            e["auto_props"] = True
+            print("     %s: also runs with %s" % (q[-70:], add))
     fs = pins.resolve(ctx, q)
     if len(fs) != 1:
         h = getattr(F, "helpers", {}).get(q)
